@@ -41,10 +41,14 @@ fn lockstep(ctx: &Context, a: &TransitionSystem, b: &TransitionSystem, rng: &mut
     let sa = RefSim::new(ctx, a);
     let sb = RefSim::new(ctx, b);
     let free: Vec<Val> = sa.state_types.iter().map(|t| random_val(rng, *t)).collect();
-    let mut xa = sa.initial(&free)?;
-    let mut xb = sb.initial(&free)?;
+    let mut first: Option<Vec<Val>> = Some(sa.input_types.iter().map(|t| random_val(rng, *t)).collect());
+    let mut xa = sa.initial(&free, first.as_ref().unwrap())?;
+    let mut xb = sb.initial(&free, first.as_ref().unwrap())?;
     for step in 0..steps {
-        let inputs: Vec<Val> = sa.input_types.iter().map(|t| random_val(rng, *t)).collect();
+        let inputs: Vec<Val> = match first.take() {
+            Some(f) => f,
+            None => sa.input_types.iter().map(|t| random_val(rng, *t)).collect(),
+        };
         for (k, (va, vb)) in xa.iter().zip(xb.iter()).enumerate() {
             if !va.sem_eq(vb) {
                 return Err(format!("step {}: state {} is {} vs {}", step, k, va.short(), vb.short()));
